@@ -122,13 +122,14 @@ def impl(c):
     if kind == 'subnet':
         q, cnt, limit = a[4:]
         try:
-            l = list(itertools.islice(common.paired(lambda: n.subnet(q, count=cnt)), limit + 1))
+            l = common.twice(lambda: list(itertools.islice(common.paired(lambda: common.make_net(ver, v, p).subnet(q, count=cnt)), limit + 1)))
         except Exception as e:
             return '!' + errname(e)
         return plist(_show(x) for x in l[:limit]) + ' ' + tf(len(l) > limit)
     if kind == 'supernet':
         try:
-            return plist(_show(x) for x in n.supernet(a[4]))
+            # asked twice; the blocks of the first answer are moved in place in between
+            return plist(_show(x) for x in common.twice(lambda: common.make_net(ver, v, p).supernet(a[4])))
         except Exception as e:
             return '!' + errname(e)
     if kind in ('next', 'prev'):
